@@ -323,7 +323,7 @@ pub fn run(ctx: &mut Ctx) {
         }
 
         // adversarial 'signed' assertions
-        let adv = rng.below(9);
+        let adv = rng.below(11);
         let victim = *rng.pick(&signers);
         let foreign = strangers[0];
         match adv {
@@ -371,6 +371,14 @@ pub fn run(ctx: &mut Ctx) {
                 e = e.add_assertion(known_values::SIGNED, wrapper.add_assertion(known_values::SIGNED, o1).add_assertion(known_values::SIGNED, o2));
                 hist.push("adv: wrapper with two outer signatures".into());
                 ctx.count("adv_two_outer_signatures");
+            }
+            7 => {
+                // a bare signature leaf carrying assertions (note + unwrapped countersignature by the same key)
+                let so = Envelope::new(foreign.sign(&subject_digest));
+                let counter = foreign.sign(&d32(&so));
+                e = e.add_assertion(known_values::SIGNED, so.add_assertion(known_values::SIGNED, counter).add_assertion(known_values::NOTE, "countersigned"));
+                hist.push("adv: signature leaf with its own assertions (stranger0)".into());
+                ctx.count("adv_signature_leaf_with_assertions");
             }
             6 => {
                 // wrapper signed by victim outside but inner signature by a foreign key
